@@ -12,18 +12,30 @@ import (
 type Expr interface{ String() string }
 
 type (
-	EInt    struct{ V int64 }
-	EStr    struct{ V string }
-	EBool   struct{ V bool }
-	ENil    struct{}
-	EIdent  struct{ Name string }
-	EUnary  struct{ Op string; X Expr }
-	EBinary struct{ Op string; L, R Expr }
-	ESel    struct{ X Expr; Field string }
-	EIndex  struct{ X, I Expr }
-	ESlice  struct{ X, Lo, Hi Expr }
-	ECall   struct{ Fn string; Args []Expr }
-	EQuant  struct {
+	EInt   struct{ V int64 }
+	EStr   struct{ V string }
+	EBool  struct{ V bool }
+	ENil   struct{}
+	EIdent struct{ Name string }
+	EUnary struct {
+		Op string
+		X  Expr
+	}
+	EBinary struct {
+		Op   string
+		L, R Expr
+	}
+	ESel struct {
+		X     Expr
+		Field string
+	}
+	EIndex struct{ X, I Expr }
+	ESlice struct{ X, Lo, Hi Expr }
+	ECall  struct {
+		Fn   string
+		Args []Expr
+	}
+	EQuant struct {
 		Forall bool
 		Vars   []Binder
 		Body   Expr
@@ -196,8 +208,8 @@ func ParseExpr(s string) (e Expr, err error) {
 type parseErr string
 
 func (p *parser) fail(f string, a ...any) { panic(parseErr(fmt.Sprintf(f, a...))) }
-func (p *parser) peek() tok             { return p.toks[p.pos] }
-func (p *parser) next() tok             { t := p.toks[p.pos]; p.pos++; return t }
+func (p *parser) peek() tok               { return p.toks[p.pos] }
+func (p *parser) next() tok               { t := p.toks[p.pos]; p.pos++; return t }
 func (p *parser) isOp(s string) bool      { t := p.peek(); return t.kind == "op" && t.text == s }
 func (p *parser) accept(s string) bool {
 	if p.isOp(s) {
